@@ -1,12 +1,14 @@
 package wire
 
 import (
+	"bufio"
 	"fmt"
 	"sync/atomic"
 	"testing"
 	"time"
 
 	"bou.ke/monkey"
+	"github.com/bluenviron/gomavlib/v3/pkg/frame"
 	"pgregory.net/rapid"
 
 	"verifharness/evid"
@@ -99,6 +101,106 @@ func TestC07WriterClock(t *testing.T) {
 		rec.Case(nontrivial, evid.Hash(hb), cls...)
 		if nontrivial && rec.WantSample("clock-readings") {
 			rec.Sample("clock-readings", map[string]interface{}{"streamwriter": useStream, "ns_since_2015": readings})
+		}
+	})
+}
+
+// TestC07WindowIgnoresReceiverClock: the accept / too-old decision depends on the timestamps accepted so far and on
+// nothing else. Here the receiver's wall clock (time.Now, patched) moves by generated amounts between frames -
+// milliseconds, just below and above half a minute, minutes, hours, and backwards - while the history is judged by
+// the same model as everywhere else.
+func TestC07WindowIgnoresReceiverClock(t *testing.T) {
+	rec := evid.New(t, "C07", "window histories (<=25 correctly signed frames, boundary and random timestamps) read one frame at a time while the receiver's wall clock (time.Now patched) jumps by generated amounts between frames (0, milliseconds, 29..31 s, minutes, hours, days, and backwards); every decision must equal the model, which knows nothing about the receiver's clock; non-trivial = a pause of more than 30 s followed by a frame older than the window; distinct by hash of timestamps and pauses")
+	rec.Require("stale-frame-after-long-pause", "clock-moved-backwards")
+	refDate := time.Date(2026, 1, 1, 0, 0, 0, 0, time.UTC)
+	evid.Check(t, rec, evid.N(4000, 20000), func(t *rapid.T) {
+		readBufSize = 512
+		var fake int64
+		guard := monkey.Patch(time.Now, func() time.Time {
+			return refDate.Add(time.Duration(atomic.LoadInt64(&fake)))
+		})
+		defer guard.Unpatch()
+		n := rapid.IntRange(2, 25).Draw(t, "n")
+		var m windowModel
+		var stream []byte
+		var lens []int
+		var hist []uint64
+		var pauses []int64
+		for i := 0; i < n; i++ {
+			var ts uint64
+			switch rapid.IntRange(0, 3).Draw(t, "kind") {
+			case 0:
+				ts = rapid.SampledFrom(c07Alphabet).Draw(t, "alpha")
+			case 1:
+				ts = rapid.Uint64Range(0, 1<<48-1).Draw(t, "rnd")
+			default:
+				d := rapid.OneOf(rapid.Int64Range(-1000003, -999997), rapid.Int64Range(-3, 3), rapid.Int64Range(-5000000, 5000000)).Draw(t, "delta")
+				v := int64(m.newest) + d
+				if v < 0 {
+					v = 0
+				}
+				if v > 1<<48-1 {
+					v = 1<<48 - 1
+				}
+				ts = uint64(v)
+			}
+			hist = append(hist, ts)
+			m.step(ts)
+			b := signedAt(ts, byte(i))
+			stream = append(stream, b...)
+			lens = append(lens, len(b))
+			pauses = append(pauses, rapid.OneOf(
+				rapid.Just(int64(0)), rapid.Int64Range(0, int64(50*time.Millisecond)),
+				rapid.Int64Range(int64(29*time.Second), int64(31*time.Second)),
+				rapid.Int64Range(int64(time.Minute), int64(20*time.Minute)),
+				rapid.Int64Range(int64(time.Hour), int64(72*time.Hour)),
+				rapid.Int64Range(-int64(2*time.Hour), -1)).Draw(t, "receiver_clock_moves_ns"))
+		}
+		// one reader, one frame per transport read, the clock moved before each of them
+		cr := &chunkReader{data: stream, sizes: lens, failAt: -1}
+		rd := &frame.Reader{BufByteReader: bufio.NewReaderSize(cr, 512), InKey: keyOf(&c07Key)}
+		if err := rd.Initialize(); err != nil {
+			t.Fatalf("BROKEN: %v", err)
+		}
+		var model windowModel
+		longPauseStale, backwards := false, false
+		for i, ts := range hist {
+			atomic.AddInt64(&fake, pauses[i])
+			if pauses[i] < 0 {
+				backwards = true
+			}
+			_, err := safeRead(rd)
+			hadNewest, newest := model.has, model.newest
+			want := model.step(ts)
+			if (err == nil) != want {
+				verdict := map[bool]string{true: "accepted", false: "refused"}
+				msg := fmt.Sprintf("history %v with the receiver's clock moving by %v ns before each frame: frame %d (timestamp %d) was %s (err=%v) but must be %s; newest accepted so far %d (present=%v). The decision may depend on accepted timestamps only", hist, pauses, i, ts, verdict[err == nil], err, verdict[want], newest, hadNewest)
+				evid.ReplayNote("C07", "TestC07WindowIgnoresReceiverClock", msg)
+				t.Fatalf("%s", msg)
+			}
+			if hadNewest && !want && pauses[i] > int64(30*time.Second) {
+				longPauseStale = true
+			}
+		}
+		var cls []string
+		if longPauseStale {
+			cls = append(cls, "stale-frame-after-long-pause")
+		}
+		if backwards {
+			cls = append(cls, "clock-moved-backwards")
+		}
+		var hb []byte
+		for i, ts := range hist {
+			for k := 0; k < 6; k++ {
+				hb = append(hb, byte(ts>>(8*uint(k))))
+			}
+			for k := 0; k < 8; k++ {
+				hb = append(hb, byte(pauses[i]>>(8*uint(k))))
+			}
+		}
+		rec.Case(longPauseStale, evid.Hash(hb), cls...)
+		if longPauseStale && rec.WantSample("history-with-pauses") && len(hist) <= 8 {
+			rec.Sample("history-with-pauses", map[string]interface{}{"timestamps": hist, "receiver_clock_moves_ns": pauses})
 		}
 	})
 }
